@@ -186,6 +186,12 @@ Proof. intros c st fin evs H. exact H. Qed.
 Lemma inv_set_remaining : forall c st r evs, inv c st evs -> inv c (set_remaining st r) evs.
 Proof. intros c st r evs H. exact H. Qed.
 
+Lemma truncated_check_ok : forall A fin rem (r : vres A) x, truncated_check fin rem r = VOk x -> r = VOk x.
+Proof.
+  intros A fin rem r x H. unfold truncated_check in H. destruct r as [y| |]; try discriminate.
+  destruct (fin && negb (is_none rem)); [discriminate | exact H].
+Qed.
+
 Lemma stream_step_post : forall c st op past evs st',
   inv c st past -> stream_step c st op = VOk (evs, st') -> step_post c past evs st'.
 Proof.
@@ -193,21 +199,19 @@ Proof.
   - destruct (s_remaining (set_ended st fin)); [discriminate|].
     eapply handle_headers_post; [|exact H]. apply inv_set_ended. exact I.
   - destruct (s_remaining (set_ended st fin)); [discriminate|].
+    apply truncated_check_ok in H.
     eapply handle_data_post; [|exact H]. apply inv_set_remaining. apply inv_set_ended. exact I.
   - destruct (s_remaining (set_ended st fin)) as [r|] eqn:ER; [|discriminate].
-    destruct (avail <? r).
+    destruct ((avail <? r) && negb fin).
     + inversion H; subst. destruct I as [I1 I2]. unfold step_post, inv. cbn [s_cl s_hstate s_ecl set_ended]. split.
       * split; [rewrite body_bytes_app, I1; cbn; lia|].
         destruct (s_hstate st); [destruct I2 as [F E]; split; [rewrite first_headers_app_none by exact F; reflexivity | exact E] | |];
           destruct I2 as [hs [F V]]; exists hs; (split; [apply first_headers_app_some; exact F | exact V]).
       * right. eexists. split; [reflexivity|]. cbn. discriminate.
-    + eapply handle_data_post; [|exact H]. apply inv_set_remaining. apply inv_set_ended. exact I.
+    + destruct (avail =? 0); [discriminate|]. apply truncated_check_ok in H.
+      eapply handle_data_post; [|exact H]. apply inv_set_remaining. apply inv_set_ended. exact I.
   - destruct (s_remaining (set_ended st true)) as [r|] eqn:ER.
-    + inversion H; subst. destruct I as [I1 I2]. unfold step_post, inv. cbn [s_cl s_hstate s_ecl set_ended]. split.
-      * split; [rewrite body_bytes_app, I1; cbn; lia|].
-        destruct (s_hstate st); [destruct I2 as [F E]; split; [rewrite first_headers_app_none by exact F; reflexivity | exact E] | |];
-          destruct I2 as [hs [F V]]; exists hs; (split; [apply first_headers_app_some; exact F | exact V]).
-      * right. eexists. split; [reflexivity|]. cbn. discriminate.
+    + discriminate.
     + apply check_cl_ok in H; [|eauto]. destruct H as [H E]. inversion H; subst.
       destruct I as [I1 I2]. unfold step_post, inv. cbn [s_cl s_hstate s_ecl set_ended]. split.
       * split; [rewrite body_bytes_app, I1; cbn; lia|].
@@ -300,3 +304,14 @@ Example conflicting_content_length_refused :
   /\ validate KRequest [(b_method, [71]); (b_authority, [104]); (b_content_length, [51]); (b_content_length, [48; 51])]
   = VOk (Some 3).
 Proof. split; reflexivity. Qed.
+
+(* a stream that ends inside a DATA frame is a frame error (fix 802f530), with or without buffered bytes *)
+Example stream_example_truncated :
+  let hs := [(b_method, [71]); (b_authority, [104])] in
+  stream_run false sstate_init [OHeaders hs false; ODataStart 1 0 false; ODataCont 0 true]
+  = ([EHeaders hs false], Some (PErr H3_FRAME_ERROR_code))
+  /\ stream_run false sstate_init [OHeaders hs false; ODataStart 3 1 true]
+  = ([EHeaders hs false], Some (PErr H3_FRAME_ERROR_code))
+  /\ stream_run false sstate_init [OHeaders hs false; ODataStart 3 1 false; OFin]
+  = ([EHeaders hs false; EData 1 false], Some (PErr H3_FRAME_ERROR_code)).
+Proof. repeat split; reflexivity. Qed.
